@@ -51,13 +51,19 @@ InterAllSets(L) == {e \in SetOf(L[1]) : \A i \in Idx(L) : e \in SetOf(L[i])}    
 Median2(v) == LET s == Sorted(v)  n == Len(v) IN                                   \* twice the median, v non-empty
               IF n % 2 = 1 THEN 2 * s[(n + 1) \div 2] ELSE s[n \div 2] + s[n \div 2 + 1]
 
-\* "from (included) to (included) by step": starts at from, moves towards to
-\* by steps of size by >= 1, never passes to, stops only when the next step would.
-SeqOK(r, from, to, by) ==
-  LET d == IF from <= to THEN 1 ELSE -1 IN
+\* "from (included) to (included) by step": starts at from, moves towards to by steps of
+\* size by >= 1, stops only when the next step would pass to, and has no element beyond to.
+\* The real-valued instantiation absorbs rounding of the step with a tolerance of one
+\* hundredth of a step (seq(0, 0.3, 0.1) must reach 0.3): there an end point lying at most
+\* by/100 beyond to may be included or not; nothing further out, for any step size.
+SeqOK(t, r, from, to, by) ==
+  LET d == IF from <= to THEN 1 ELSE -1
+      gap == d * (to - r[Len(r)]) IN                 \* distance left to `to` (negative: passed it)
   /\ Len(r) >= 1 /\ r[1] = from
   /\ \A i \in 1..(Len(r) - 1) : r[i+1] - r[i] = d * by
-  /\ d * (to - r[Len(r)]) \in 0..(by - 1)
+  /\ gap <= by - 1
+  /\ \/ gap >= 0
+     \/ t = "double" /\ Len(r) >= 2 /\ 100 * (-gap) <= by
 
 PowersOfTwo == {1, 2, 4, 8, 16, 32, 64}
 FdrUnit == 2520          \* lcm(1..10): p-value k is x[k] * 2520 / 2^22, results are numerators at scale 2^22
@@ -96,7 +102,7 @@ DIM   == "DimensionException"
 EMPTY == "EmptyVectorException"
 
 \* operations that may modify their first / second / third vector argument
-MutX == {"Median", "Fill", "AndEq", "AddEqS", "SubEqS", "MulEqS", "DivEqS", "Same", "ContainsAll",
+MutX == {"Median", "Fill", "AndEq", "AddEqS", "SubEqS", "MulEqS", "DivEqS", "AddEqE", "SubEqE", "MulEqE", "DivEqE", "Same", "ContainsAll",
          "AddEq", "SubEq", "MulEq", "DivEq", "Append", "Prepend", "Extend", "Diff"}
 MutY == {"Same", "ContainsAll", "Diff"}
 MutZ == {"Diff"}
@@ -160,7 +166,7 @@ Value(t, op, x, y, z, k, o, c, r, X, Y, Z) ==
     [] op = "WhichAll" -> IF k[1] \in SetOf(x) THEN o = "ok" /\ r = PosOf(x, k[1]) ELSE o = "raise"
     [] op = "Contains" -> o = "ok" /\ r = (k[1] \in SetOf(x))
     [] op = "Rep"      -> o = "ok" /\ r = RepDef(x, k[1])
-    [] op = "Seq"      -> o = "ok" /\ SeqOK(r, k[1], k[2], k[3])
+    [] op = "Seq"      -> o = "ok" /\ SeqOK(t, r, k[1], k[2], k[3])
     [] op \in {"Fill", "AndEq"} -> o = "ok" /\ X = [i \in Idx(x) |-> k[1]]
     [] op \in {"AddS", "SAdd"}  -> o = "ok" /\ r = Map1(x, LAMBDA e : e + k[1])
     [] op = "SubS"     -> o = "ok" /\ r = Map1(x, LAMBDA e : e - k[1])
@@ -172,6 +178,12 @@ Value(t, op, x, y, z, k, o, c, r, X, Y, Z) ==
     [] op = "SubEqS"   -> o = "ok" /\ X = Map1(x, LAMBDA e : e - k[1])
     [] op = "MulEqS"   -> o = "ok" /\ X = Map1(x, LAMBDA e : e * k[1])
     [] op = "DivEqS"   -> o = "ok" /\ X = Map1(x, LAMBDA e : TruncDiv(e, k[1]))
+    \* v op= v[i]: the scalar is an element of the target itself (k[1] = i, 0-based); every element is
+    \* combined with the value v[i] had when the call was made
+    [] op = "AddEqE"   -> o = "ok" /\ X = Map1(x, LAMBDA e : e + x[k[1] + 1])
+    [] op = "SubEqE"   -> o = "ok" /\ X = Map1(x, LAMBDA e : e - x[k[1] + 1])
+    [] op = "MulEqE"   -> o = "ok" /\ X = Map1(x, LAMBDA e : e * x[k[1] + 1])
+    [] op = "DivEqE"   -> o = "ok" /\ X = Map1(x, LAMBDA e : TruncDiv(e, x[k[1] + 1]))
     \* element-wise binary: a size mismatch must be reported
     [] op = "Add" -> IF Len(x) # Len(y) THEN o = "raise" ELSE o = "ok" /\ r = Map2(x, y, Plus)
     [] op = "Sub" -> IF Len(x) # Len(y) THEN o = "raise" ELSE o = "ok" /\ r = Map2(x, y, Minus)
